@@ -1,7 +1,12 @@
-"""(development helper) build the `known` C07 entries of known_findings.json from literal witness
+"""(development helper) maintain the C07 entries of known_findings.json from literal witness
 histories, checking each against the real code and the model (the same checker the run uses).
-The entries proj-id-alias, proj-op-alias, result-id-alias, proj-arg-mutated are `fixed` (5ac4c3c)
-and are left as they are."""
+
+All C07 findings are repaired in the library by now: proj-id-alias, proj-op-alias,
+result-id-alias, proj-arg-mutated (5ac4c3c), update-value-alias (1c3a0e6), agg-literal-alias
+(aab0261), cursor-cache-alias (b973460).  This script turns the entries listed in FIXED into
+`fixed` records (keeping / adding the witness history) after checking that the witness runs clean
+through `props.c07.run_one` with nothing listed as known and that the named consequence no longer
+shows; run it with the repaired library on PYTHONPATH."""
 import json
 import os
 import sys
@@ -10,38 +15,44 @@ import common  # noqa: E402
 import wire  # noqa: E402
 import props.c07 as c07  # noqa: E402
 
-W = [
-    ('agg-literal-alias',
-     'constants of a pipeline ($literal values, array constants of $addFields/$project) are put '
-     'into every output document as they are (caller -> caller aliasing, the store is not '
-     'involved): editing a result edits the caller\'s pipeline and the other results, and a later '
-     '$addFields on a nested path writes into the caller\'s pipeline',
-     [['insert_many', [{'_id': 1}, {'_id': 2}], True],
-      ['aggregate', [{'$addFields': {'q': {'$literal': {'z': 1}}}}]]]),
-    ('cursor-cache-alias',
+FIXED = [
+    ('cursor-cache-alias', 'b973460',
      'a Cursor caches its result list and hands out the cached objects (collection.py:1909-1942): '
      'after editing a document obtained from a cursor, rewinding / indexing the same cursor '
      'returns the edited object (caller -> caller aliasing, the store is not involved)',
      [['insert_one', {'_id': 1, 'a': [1]}],
-      ['find_rewind', {}, None]]),
+      ['find_rewind', {}, None]],
+     'cursor-cache-alias'),
+    ('update-value-alias', '1c3a0e6',
+     'update_many placed the very same sub-document / list object carried by $set, $push, '
+     '$addToSet, $each, $setOnInsert, $min, $max into every matched document, so a later in-place '
+     'update of one document changed the others',
+     [['insert_many', [{'_id': 1}, {'_id': 2}], True],
+      ['update_many', {}, {'$set': {'a': {'x': []}}}, False],
+      ['update_one', {'_id': 1}, {'$push': {'a.x': 1}}, False],
+      ['find_one', {'_id': 2}, None]],
+     None),
 ]
 
-out = []
-for label, what, history in W:
+path = os.path.join(wire.VERIF, 'known_findings.json')
+data = json.load(open(path))
+for label, commit, what, history, cons in FIXED:
     oids = wire.Oids()
     wh = wire.encs(history, oids)
     ctx = common.Ctx('C07', 'quick', 0)
-    r, judge = c07.run_one(ctx, wire.dec(wh, wire.Oids()), wire.Oids(),
-                           known=c07.known_ids() | {label})
-    seen = set(c for c, _, _ in r.events) | set(ctx.known_seen)
-    assert label in seen, (label, seen, dict(judge.table))
-    assert c07.consequence(label), label
-    print(label, 'ok', sorted(seen), len(ctx.violations))
-    out.append({'property': 'C07', 'id': label, 'status': 'known', 'what': what,
-                'witness': {'history': history, 'wire_history': wh, 'consequence': label}})
-path = os.path.join(wire.VERIF, 'known_findings.json')
-data = json.load(open(path))
-ids = set(e['id'] for e in out)
-data['findings'] = [x for x in data['findings']
-                    if not (x['property'] == 'C07' and x['id'] in ids)] + out
+    r, judge = c07.run_one(ctx, wire.dec(wh, wire.Oids()), wire.Oids(), known=set())
+    assert not ctx.violations and not r.events, (label, r.events, ctx.violations[:1])
+    assert not (cons and c07.consequence(cons)), label
+    print(label, 'clean', dict(judge.table))
+    old = [x for x in data['findings'] if x['property'] == 'C07' and x['id'] == label]
+    witness = dict(old[0].get('witness', {})) if old else {}
+    witness.update({'history': history, 'wire_history': wh})
+    if cons:
+        witness['consequence'] = cons
+    entry = {'property': 'C07', 'id': label, 'status': 'fixed', 'what': what, 'witness': witness,
+             'commit': commit, 'fixed': 'fixed: property=C07 %s %s' % (commit, what)}
+    data['findings'] = [entry if (x['property'] == 'C07' and x['id'] == label) else x
+                        for x in data['findings']]
+    if not old:
+        data['findings'].append(entry)
 json.dump(data, open(path, 'w'), indent=1)
